@@ -25,6 +25,9 @@
 (*         uninterpreted function of (flow, key): the first observation    *)
 (*         binds it, every later one must agree (property C06).            *)
 (*   ckx   exclusions learnt from rejected segments on unbound flows       *)
+(*   byck  cookie |-> the first flow observed with it (current key)        *)
+(*   coll  pairs of distinct flows observed with equal cookies, with the   *)
+(*         keys under which that happened (kept across reconfigurations)   *)
 (*   viol  clauses violated by the last step;  kf  known findings hit      *)
 (*   groups  C19: for each payload group (the same application payload     *)
 (*         sent under several port pairs / IP versions), how its first     *)
@@ -35,9 +38,9 @@
 (***************************************************************************)
 EXTENDS Wire, Config, App, TLC
 
-VARIABLES cfg, tcb, ck, ckx, viol, kf, last, groups, pairs
+VARIABLES cfg, tcb, ck, ckx, viol, kf, last, groups, pairs, byck, coll
 
-svars == << cfg, tcb, ck, ckx, viol, kf, last, groups, pairs >>
+svars == << cfg, tcb, ck, ckx, viol, kf, last, groups, pairs, byck, coll >>
 
 (* Known deviations of the implementation (KNOWN_FINDINGS.txt), as keys *)
 CONSTANT KnownKeys
@@ -272,6 +275,17 @@ MirrorTcpS(b, r, shifts) ==
            /\ \E sh \in shifts : TcpSport(r, rs) = (t.dport + sh) % 65536)
 MirrorTcp(b, r) == MirrorTcpS(b, r, { 0 })
 
+(* C06: the cookie changes (up to a 2^-32 coincidence) when any input changes.  A       *)
+(* coincidence is told from a structural failure by key variation: two distinct flows   *)
+(* whose cookies are equal under three different keys (chance 2^-96) share the cookie   *)
+(* because an input is ignored.                                                          *)
+CollisionPartner(f, c) == IF c \in DOMAIN byck /\ byck[c] # f THEN << byck[c] >> ELSE << >>
+PersistentCollision(f, c) ==
+    LET p == CollisionPartner(f, c) IN
+    /\ p # << >>
+    /\ LET pr == { << p[1], f >>, << f, p[1] >> } \cap DOMAIN coll IN
+       \E x \in pr : Cardinality(coll[x] \cup { cfg.key }) >= 3
+
 (* C06 *)
 SynAckOK(b, r) ==
     LET t == TcpCtx(b)  rs == L4Start(r) IN
@@ -279,6 +293,7 @@ SynAckOK(b, r) ==
     \cup V("C06", "flags-exactly-syn-ack", TcpFlags(r, rs) = F_SYN + F_ACK)
     \cup V("C06", "ack-is-seq-plus-1", TcpAck(r, rs) = Add32(t.seq, 1))
     \cup V("C06", "no-payload", Len(r) = rs + 20)
+    \cup V("C06", "cookie-depends-on-every-input", ~PersistentCollision(t.flow, TcpSeq(r, rs)))
     \cup (IF Bound(t.flow)
           THEN V("C06", "cookie-deterministic", TcpSeq(r, rs) = ck[t.flow])
           ELSE V("C07", "cookie-consistent-with-earlier-rejection",
@@ -310,6 +325,11 @@ UdpReplyOK(b, r) ==
     \cup V("C03", "ports-swapped",
            /\ UdpDport(r, rs) = u.sport
            /\ \E sh \in AppPortShift("udp", << >>, UdpPayload(b)) : UdpSport(r, rs) = (u.dport + sh) % 65536)
+    \cup (IF AppPortShift("udp", << >>, UdpPayload(b)) = { 1 }
+          THEN V("C15", "change-port-answered-from-the-next-port", UdpSport(r, rs) = (u.dport + 1) % 65536)
+          ELSE IF AppPortShift("udp", << >>, UdpPayload(b)) = { 0 } /\ RefId(UdpPayload(b), TRUE) = "STUN"
+          THEN V("C15", "answered-from-the-contacted-port", UdpSport(r, rs) = u.dport)
+          ELSE {})
 
 AppReplyOf(r) == LET rs == L4Start(r) IN
     IF (IF EthType(r) = ETH_IP4 THEN Ip4Proto(r) ELSE Ip6Nh(r)) = PROTO_UDP
@@ -554,19 +574,37 @@ AfterTcb(b, obs) ==
              new == IF Len(old) + Len(pay) <= StreamCap THEN old \o pay ELSE old
              rs  == L4Start(obs.rep)
              carried == Len(obs.rep) > rs + 20
-         IN [ f \in DOMAIN tcb \cup { t.flow } |->
-                IF f = t.flow THEN [ stream |-> new, done |-> DoneBefore(t.flow) \/ carried ]
-                ELSE tcb[f] ]
+         IN (t.flow :> [ stream |-> new, done |-> DoneBefore(t.flow) \/ carried ]) @@ tcb
 
 AfterCk(b, obs) ==
     LET o == ExpectL2(b) IN
     IF obs.kind # "reply" \/ ~ReplyShape(b, obs.rep, 20) THEN ck
     ELSE LET t == TcpCtx(b)  rs == L4Start(obs.rep) IN
          IF o.kind = "synack" /\ ~Bound(t.flow) /\ TcpFlags(obs.rep, rs) = F_SYN + F_ACK
-         THEN [ f \in DOMAIN ck \cup { t.flow } |-> IF f = t.flow THEN TcpSeq(obs.rep, rs) ELSE ck[f] ]
+         THEN (t.flow :> TcpSeq(obs.rep, rs)) @@ ck
          ELSE IF o.name = "TcpDataUnboundCookie"
-         THEN [ f \in DOMAIN ck \cup { t.flow } |-> IF f = t.flow THEN Sub1_32(t.ack) ELSE ck[f] ]
+         THEN (t.flow :> Sub1_32(t.ack)) @@ ck
          ELSE ck
+
+(* first flow seen with each cookie, and the collisions observed *)
+NewBinding(b, obs) ==      \* << flow, cookie >> bound by this step from a SYN-ACK, or << >>
+    LET o == ExpectL2(b) IN
+    IF o.kind = "synack" /\ obs.kind = "reply" /\ ReplyShape(b, obs.rep, 20)
+       /\ TcpFlags(obs.rep, L4Start(obs.rep)) = F_SYN + F_ACK
+    THEN << TcpCtx(b).flow, TcpSeq(obs.rep, L4Start(obs.rep)) >> ELSE << >>
+
+AfterByck(b, obs) ==
+    LET nb == NewBinding(b, obs) IN
+    IF nb = << >> \/ nb[2] \in DOMAIN byck THEN byck ELSE (nb[2] :> nb[1]) @@ byck
+
+AfterColl(b, obs) ==
+    LET nb == NewBinding(b, obs) IN
+    IF nb = << >> THEN coll
+    ELSE LET p == CollisionPartner(nb[1], nb[2]) IN
+         IF p = << >> THEN coll
+         ELSE LET x == IF << p[1], nb[1] >> \in DOMAIN coll THEN << p[1], nb[1] >>
+                       ELSE IF << nb[1], p[1] >> \in DOMAIN coll THEN << nb[1], p[1] >> ELSE << p[1], nb[1] >>
+              IN (x :> ((IF x \in DOMAIN coll THEN coll[x] ELSE {}) \cup { cfg.key })) @@ coll
 
 AfterCkx(b, obs) ==
     LET o == ExpectL2(b) IN
@@ -582,6 +620,7 @@ EmptyFn == [ x \in {} |-> 0 ]
 Init(c) ==
     /\ cfg = c /\ tcb = EmptyFn /\ ck = EmptyFn /\ ckx = {}
     /\ viol = {} /\ kf = {} /\ last = "init" /\ groups = EmptyFn /\ pairs = EmptyFn
+    /\ byck = EmptyFn /\ coll = EmptyFn
 
 (* Known findings: a violated clause is attributed to a listed deviation   *)
 (* only if it falls in that deviation's specific class.                    *)
@@ -596,7 +635,8 @@ CookieCollision(b) ==
        /\ \E g \in DOMAIN tcb : g # t.flow /\ Bound(g) /\ ck[g] = ck[t.flow]
 
 KnownKey(v, b, obs) ==
-    IF v[1] \in { "C07", "C08", "C09", "C11" } /\ CookieCollision(b) THEN v[1] \o ":equal-cookies"
+    IF v[1] \in { "C07", "C08", "C09" } /\ CookieCollision(b)
+    THEN LET c == ck[TcpCtx(b).flow] IN v[1] \o ":equal-cookies:" \o ToString(c[1]) \o ":" \o ToString(c[2])
     ELSE IF ExpectL2(b).kind = "udp" THEN AppKnownKey(v, "udp", << >>, UdpPayload(b))
     ELSE IF ExpectL2(b).kind = "data" THEN AppKnownKey(v, "tcp", StreamBefore(TcpCtx(b).flow), TcpPayload(b))
     ELSE "-"
@@ -624,13 +664,16 @@ Handle(b, obs) ==
     /\ last' = OutcomeLabel(b)
     /\ groups' = AfterGroups(b, obs)
     /\ pairs' = AfterPairs(b, obs)
+    /\ byck' = AfterByck(b, obs)
+    /\ coll' = AfterColl(b, obs)
     /\ UNCHANGED cfg
 
 Reconfigure(c) ==
     /\ cfg' = c /\ tcb' = EmptyFn /\ ck' = EmptyFn /\ ckx' = {}
     /\ viol' = {} /\ kf' = {} /\ last' = "reconfigure" /\ groups' = EmptyFn /\ pairs' = EmptyFn
+    /\ byck' = EmptyFn /\ UNCHANGED coll
 
 ResetTable ==
     /\ tcb' = EmptyFn /\ viol' = {} /\ kf' = {} /\ last' = "reset"
-    /\ UNCHANGED << cfg, ck, ckx, groups, pairs >>
+    /\ UNCHANGED << cfg, ck, ckx, groups, pairs, byck, coll >>
 =============================================================================
